@@ -18,6 +18,8 @@ def install(reg):
         }, "_read_file": {"same_decoding_as_scan": "arg0 is path"},
            "lex": {"whole_text_with_comments_as_scan_does": "arg0 is lexer and arg1 == call_result('_read_file') and not arg2"},
            "scan_file": {"of_the_lexed_tokens": "arg0 is call_result('lex')"}},
+        ensures={"what_is_listed_comes_from_the_scan_pipeline":
+                 "implies(called('CheckResult.add'), called('scan_file') and called('lex') and called('_read_file'))"},
         raises={},
         props=("C02", "C12", "C03"),
     )
